@@ -11,7 +11,9 @@ package main
 import (
 	"fmt"
 	"go/types"
+	"reflect"
 	"sort"
+	"strings"
 
 	"golang.org/x/tools/go/ssa"
 )
@@ -228,12 +230,22 @@ func (e *jsonEnc) encode(t types.Type, v value) {
 			if !f.Exported() {
 				continue
 			}
+			name, omitEmpty, skip := jsonFieldTag(u.Tag(i), f.Name())
+			if skip {
+				continue
+			}
+			if f.Embedded() {
+				panic(unsupported("json: embedded struct field " + f.Name()))
+			}
+			if omitEmpty && e.isEmptyValue(f.Type(), st[i]) {
+				continue
+			}
 			if !first {
 				e.lit(",")
 			}
 			first = false
 			e.nl()
-			e.out = concatStr(e.out, e.m.jsonEscape(e.fr, str{s: f.Name()}))
+			e.out = concatStr(e.out, e.m.jsonEscape(e.fr, str{s: name}))
 			e.lit(":")
 			if e.indent {
 				e.lit(" ")
@@ -248,6 +260,71 @@ func (e *jsonEnc) encode(t types.Type, v value) {
 	default:
 		panic(unsupported("json: type " + t.String()))
 	}
+}
+
+// jsonFieldTag reads a `json:"name,omitempty"` struct tag the way encoding/json documents it.
+func jsonFieldTag(tag string, fieldName string) (name string, omitEmpty bool, skip bool) {
+	name = fieldName
+	v, ok := reflect.StructTag(tag).Lookup("json")
+	if !ok {
+		return
+	}
+	if v == "-" {
+		return name, false, true
+	}
+	parts := strings.Split(v, ",")
+	if parts[0] != "" {
+		name = parts[0]
+	}
+	for _, o := range parts[1:] {
+		switch o {
+		case "omitempty":
+			omitEmpty = true
+		case "string":
+			panic(unsupported("json: ,string option"))
+		}
+	}
+	return
+}
+
+// isEmptyValue: false, 0, a nil pointer, a nil interface value, and any empty array, slice, map, or string.
+func (e *jsonEnc) isEmptyValue(t types.Type, v value) bool {
+	switch u := t.Underlying().(type) {
+	case *types.Basic:
+		switch x := v.(type) {
+		case str:
+			return x.length() == 0
+		case *Term:
+			if x.w == 0 {
+				return !e.m.branch(x, e.fr)
+			}
+			return e.m.branch(mkEq(x, mkConst(x.w, 0)), e.fr)
+		}
+	case *types.Pointer:
+		p, ok := v.(pointer)
+		return !ok || p.isNil()
+	case *types.Interface:
+		iv, ok := v.(iface)
+		return !ok || iv.t == nil
+	case *types.Slice:
+		sl, ok := v.(slice)
+		return !ok || sl.len == 0
+	case *types.Map:
+		mp, _ := v.(*mapObj)
+		if mp == nil {
+			return true
+		}
+		n := 0
+		for i := range mp.keys {
+			if !mp.dead[i] {
+				n++
+			}
+		}
+		return n == 0
+	case *types.Array:
+		return u.Len() == 0
+	}
+	return false
 }
 
 func (m *Machine) jsonMarshal(fr *frame, arg value, indent bool) value {
